@@ -442,7 +442,15 @@ pub fn analyze(sc: &Scenario, out: &RunOut) -> Analysis {
                     if si.q != *q {
                         viol!("delivery_invented", "msg {} delivered to node {} through the wrong kind of port", id, node);
                     }
-                    match si.recips.iter_mut().find(|r| r.0 == node) {
+                    // Several connections may lead to the same node: match on the
+                    // expected value first.
+                    let pos = si
+                        .recips
+                        .iter()
+                        .position(|r| r.0 == node && r.1 == *val && r.2 == 0)
+                        .or_else(|| si.recips.iter().position(|r| r.0 == node && r.2 == 0))
+                        .or_else(|| si.recips.iter().position(|r| r.0 == node));
+                    match pos.map(|p| &mut si.recips[p]) {
                         Some(r) => {
                             if r.2 != 0 {
                                 viol!("delivery_dup", "msg {} processed {} times by node {}", id, r.2 + 1, node);
@@ -460,7 +468,13 @@ pub fn analyze(sc: &Scenario, out: &RunOut) -> Analysis {
                     let tgt = reqs[ri].target;
                     match dues.iter_mut().find(|d| d.req == ri) {
                         Some(d) => {
-                            match d.recips.iter_mut().find(|r| r.0 == node) {
+                            let pos = d
+                                .recips
+                                .iter()
+                                .position(|r| r.0 == node && r.1 == *val && r.2 == 0)
+                                .or_else(|| d.recips.iter().position(|r| r.0 == node && r.2 == 0))
+                                .or_else(|| d.recips.iter().position(|r| r.0 == node));
+                            match pos.map(|p| &mut d.recips[p]) {
                                 Some(r) => {
                                     if r.2 != 0 {
                                         viol!("sched_dup", "scheduled occurrence id={} executed twice at t={} on node {}", id, now, node);
